@@ -22,6 +22,7 @@ import (
 	"runtime"
 	"sort"
 	"strings"
+	"sync/atomic"
 	"testing"
 
 	"github.com/lni/dragonboat/v4/config"
@@ -50,7 +51,13 @@ type txWorld struct {
 	next      uint64
 	lastID    uint64
 	closed    bool
+	// snapshot lane
+	snapSent, snapRefused, snapStatus int
 }
+
+type txCompactor struct{}
+
+func (txCompactor) Compact(uint64) error { return nil }
 
 type txConn struct{ w *txWorld }
 
@@ -96,7 +103,7 @@ type txHandler struct{ w *txWorld }
 
 func (h *txHandler) HandleMessageBatch(pb.MessageBatch) (uint64, uint64) { return 0, 0 }
 func (h *txHandler) HandleUnreachable(uint64, uint64)                    { h.w.unreach++ }
-func (h *txHandler) HandleSnapshotStatus(uint64, uint64, bool)           {}
+func (h *txHandler) HandleSnapshotStatus(uint64, uint64, bool)           { h.w.snapStatus++ }
 func (h *txHandler) HandleSnapshot(uint64, uint64, uint64)               {}
 
 type txEvents struct{}
@@ -170,6 +177,26 @@ func (w *txWorld) hostOp(op string) {
 		if w.accepted[id] {
 			vsched.Await(func() bool { return w.delivered[id] > 0 }, fmt.Sprintf("delivery of message %d", id))
 		}
+	case "K2": // host2 is down for good: its circuit breaker is open (and does not re-close by itself)
+		w.t.GetCircuitBreaker("host2:1").Break()
+	case "n2": // NodeHost.sendMessage for an InstallSnapshot to a witness on host2 (no files needed)
+		m := pb.Message{Type: pb.InstallSnapshot, To: 2, From: 1, ShardID: 100,
+			Snapshot: pb.Snapshot{Index: 10 + w.next, Term: 1, Witness: true, ShardID: 100}}
+		w.next++
+		m.Snapshot.Load(txCompactor{})
+		if w.t.SendSnapshot(m) {
+			w.snapSent++
+		} else {
+			w.snapRefused++
+		}
+	case "g2": // snapshotter asks for a stream sink to host2
+		if sink := w.t.GetStreamSink(100, 2); sink != nil {
+			if err := sink.Close(); err != nil {
+				w.errs = append(w.errs, err.Error())
+			}
+		}
+	case "q":
+		vsched.Await(func() bool { return vsched.Quiescent() }, "quiescence")
 	case "I": // a minute without traffic: the idle timers of the connection workers fire
 		vtime.FireTimers()
 	case "C":
@@ -196,6 +223,13 @@ func (w *txWorld) judge(o *vsched.Outcome) (map[string]string, []string) {
 	}
 	for _, e := range w.errs {
 		finds["tx/error/"+txNum.ReplaceAllString(e, "N")] = "unexpected error: " + e
+	}
+	if o.Status == vsched.Completed && os.Getenv("VERIF_TX_ORACLE") != "dup" {
+		// every snapshot job slot is given back: the transport has 64 of them for
+		// the life of the process, a leak ends every later snapshot transfer
+		if j := atomic.LoadUint64(&w.t.jobs); j != 0 {
+			finds["tx/snapshot-job-slots-leaked"] = fmt.Sprintf("%d snapshot job slot(s) are still taken although no snapshot job is left (%d sends accepted, %d refused): after 64 leaks this host can never send or stream a snapshot again", j, w.snapSent, w.snapRefused)
+		}
 	}
 	lost, dup := 0, 0
 	dupOracle := os.Getenv("VERIF_TX_ORACLE") == "dup"
@@ -225,7 +259,7 @@ func (w *txWorld) judge(o *vsched.Outcome) (map[string]string, []string) {
 			}
 		}
 	}
-	classes := []string{fmt.Sprintf("sent:%d lost:%d dup:%d connects:%d unreachable:%d", len(w.accepted), lost, dup, w.connects, w.unreach)}
+	classes := []string{fmt.Sprintf("sent:%d lost:%d dup:%d connects:%d unreachable:%d snap:%d/%d/%d", len(w.accepted), lost, dup, w.connects, w.unreach, w.snapSent, w.snapRefused, w.snapStatus)}
 	if len(o.Parked) > 0 {
 		ps := append([]string(nil), o.Parked...)
 		for i := range ps {
@@ -247,6 +281,9 @@ func txScenarios() []txScenario {
 		"s2 s3 a I S2 a S3 a C", // two targets
 		"s2 a I s2 s2 S2 a C",
 		"s2 C",
+		"n2 q C",          // a snapshot to a healthy peer
+		"K2 n2 n2 g2 q C", // snapshot sends and a stream sink request while the peer's breaker is open
+		"s2 a K2 n2 s2 n2 q C",
 		"s2 s2 s2 a C", // a burst drained in one pass: more than one batch (the size limit is scaled down)
 		"s2 a s2 s2 s2 s2 a C",
 	} {
